@@ -169,6 +169,37 @@ class C01(Prop):
             # (value, every captured span, how much was consumed) is observed on most inputs instead of a bare rejection
             lines.append(case_line(f'h{n}', ('then', g, rest), inp, kind=kind))
             n += 1
+        # the token sets / sequences of `one_of`, `none_of`, `just` handed over as every `Seq` / `OrderedSeq` implementation
+        # (`container.rs`: String, &str, arrays, slices, ranges, a single token, references, hash / tree sets, linked list;
+        # harness flavour `~sN`, 0 = Vec): all must behave as the Vec the model describes. Inputs include tokens next to the
+        # range ends and tokens that agree with a member of the set modulo 2^8 / 2^16.
+        sets = [[97, 98], [97, 98, 99], [97], [98, 97], [97, 99], [233, 97], [97, 0x161], [0x4e2d, 0x4e2e]]
+        alpha = [97, 98, 99, 100, 96, 233, 0x161, 0x162, 0x10061, 0x4e2d, 0x2d, 0x4e2f]
+        inp = inputs_all(2, alpha)
+        for si, ts in enumerate(sets):
+            for prim in ('oneof', 'noneof', 'just'):
+                for fl in range(13):
+                    if prim == 'just' and fl >= 10:
+                        continue
+                    g = (prim, ts)
+                    kind = 'str' if (si + fl) % 2 == 0 else 'slice'
+                    lines.append(case_line(f'q{n}~s{fl}', g, inp, kind=kind))
+                    lines.append(case_line(f'r{n}~s{fl}', ('then', ('collect', 'vec', ('rep', ('or', g, ('map', ('tag', 3), ('any',))), 0, None)), ('end',)), inp, kind=kind))
+                    n += 1
+        # choice over an array (`~s3`), over a Vec, and over a one-element tuple (no save / rewind at all)
+        ab, a1, b1 = ('just', [97, 98]), ('just', [97]), ('just', [98])
+        alts = [[ab, a1], [a1, ab], [ab, a1, b1], [('then', a1, b1), ('then', a1, a1), a1], [ab], [('ornot', ab), a1]]
+        inp2 = inputs_all(4, [97, 98, 233])
+        for ai, gs in enumerate(alts):
+            for fl in (0, 3):
+                for shape in (lambda c: c, lambda c: ('then', c, rest), lambda c: ('collect', 'vec', ('rep', c, 0, None))):
+                    if shape(('choices', gs))[0] == 'collect' and any(x[0] == 'ornot' for x in gs):
+                        continue
+                    kind = 'str' if (ai + fl) % 2 == 0 else 'slice'
+                    lines.append(case_line(f'c{n}~s{fl}', shape(('choices', gs)), inp2, kind=kind))
+                    if len(gs) == 1 and fl == 0:
+                        lines.append(case_line(f'd{n}', shape(('choicet', gs)), inp2, kind=kind))
+                    n += 1
         return lines
 
     def compare(self, line, k, impl_M, model_M, spec_S):
@@ -457,8 +488,10 @@ class SpecProp(Prop):
             r.append(m['insp'] if out is not None else None)
         return tuple(r)
 
-    def holds(self, i, s):
+    def holds(self, i, s, check_mode=False):
         """predicate on the implementation's observation `i` given the spec's result `s`"""
+        if check_mode and s['kind'] == 'ok':
+            s = dict(s, val='u')          # `check()` builds no output
         if s['kind'] == 'P':
             return i['kind'] == 'P' and i['site'] == s['site']
         if s['kind'] == 'OOF':
@@ -478,7 +511,7 @@ class SpecProp(Prop):
     def compare(self, line, k, impl_M, model_M, spec_S):
         im, mm, ss = parse_M(impl_M), parse_M(model_M), parse_S(spec_S)
         corr = self.proj_impl(im) == self.proj_impl(mm)
-        return {'corr': corr, 'pred': self.holds(im, ss), 'why': self.why,
+        return {'corr': corr, 'pred': self.holds(im, ss, ' check ' in line[:48]), 'why': self.why,
                 'outcome': im['kind'] + ('+' if im.get('out') is not None else '-') + ('e' if im.get('errs') and im.get('out') is not None else ''),
                 'nontrivial': is_nontrivial(line, k, None)}
 
@@ -649,6 +682,64 @@ class C15(SpecProp):
     level_text = ('refinement theorem: the machine (which swaps a context reference) delivers the lexically nearest provider of the '
                   'PEG reading; configure/try_configure equal the statically configured parser; outputs of the real crate compared')
 
+    def cases(self, tier, seed):
+        lines = super().cases(tier, seed)
+        # the context providers used as ITERABLE parsers (`IterParser for IgnoreWithCtx / ThenWithCtx`, combinator.rs:1148-1266):
+        # `a.ignore_with_ctx(it).collect()` must be `a.ignore_with_ctx(it.collect())` (and likewise then_with_ctx). The first form has
+        # no constructor in the model: it is a harness-only line `!y<n>` whose observation must equal that of the model-known `y<n>`.
+        a, b_, comma = ('just', [gen.A]), ('just', [gen.B]), ('just', [gen.COMMA])
+        digit = ('or', ('to', ('vnat', 2), ('just', [50])), ('to', ('vnat', 1), ('just', [51])))
+        provs = [('any',), ('oneof', [gen.A, gen.B]), digit, ('ornot', a), ('collect', 'string', ('rep', ('oneof', [gen.A, gen.B]), 1, 2)),
+                 ('validate', 'always', 5, 1, ('any',))]
+        items = [('mwctx', a), ('mwctx', ('any',)), ('mwctx', ('oneof', [gen.A, gen.B])), ('mwctx', ('cfgjust', 'seqctx', [gen.B])),
+                 ('then', ('mwctx', a), b_), ('validate', 'always', 6, 1, ('mwctx', a)), ('iwctx', ('any',), ('mwctx', a))]
+        its = []
+        for it in items:
+            for lo, hi in ((0, None), (1, 2), (2, 2)):
+                its.append(('rep', it, lo, hi))
+            its.append(('sep', it, comma, 0, None, False, True))
+            its.append(('sep', it, comma, 1, 3, True, False))
+            its.append(('ornotit', it))
+            its.append(('thenit', ('rep', it, 0, 1), ('rep', ('mwctx', b_), 0, None)))
+            for cfn in ('exactlyctx', 'atleastctx', 'atmostctx'):
+                its.append(('cfgrep', cfn, ('rep', it, 0, None)))
+        inp = inputs_all(4 if tier == 'quick' else 5, [gen.A, gen.B, gen.COMMA, 50])
+        rest = ('toslice', ('iterp', ('rep', ('any',), 0, None)))
+        n = 0
+        for pv in provs:
+            for it in its:
+                kind = 'str' if n % 2 == 0 else 'slice'
+                mode = 'parse' if n % 3 else 'check'
+                for tag, ho, eq in (('i', ('collectiw', pv, it), ('iwctx', pv, ('collect', 'vec', it))),
+                                    ('t', ('collecttw', pv, it), ('map', 'snd', ('twctx', pv, ('collect', 'vec', it))))):
+                    lines.append(case_line(f'y{tag}{n}', ('then', eq, rest), inp, kind=kind, mode=mode))
+                    lines.append(case_line(f'!y{tag}{n}', ('then', ho, rest), inp, kind=kind, mode=mode))
+                n += 1
+        return lines
+
+    def group_of(self, line):
+        return line.split(' ', 1)[0].lstrip('!')
+
+    def check_chunk(self, by_id, impl, model, stats, fails):
+        super().check_chunk(by_id, impl, model, stats, fails)
+        for key, io in impl.items():
+            if not key.startswith('!'):
+                continue
+            cid, _, k = key.rpartition('.')
+            other = impl.get(key[1:], {}).get('M')
+            a = io.get('M')
+            stats['pairs'] += 1
+            stats['nontrivial'] += 1
+            oc = 'ctx-iter' + ('+' if a and a.startswith('R ok') else '-')
+            stats['outcomes'][oc] = stats['outcomes'].get(oc, 0) + 1
+            if a is None or other is None:
+                fails.append(('missing', by_id.get(cid), int(k), 'no implementation observation (crash / hang?)'))
+            elif a != other:
+                stats['pred_fail'] += 1
+                self.fail(stats, fails, 'pred', [(by_id.get(cid), int(k)), (by_id.get(cid[1:]), int(k))], int(k),
+                          f'CTX-ITER: the context provider used as an iterable parser gives {a} || the same provider around the collected '
+                          f'iterator gives {other}')
+
 
 class C18(SpecProp):
     name = 'C18'; module = 'C18'; claimed = True
@@ -747,14 +838,67 @@ class C06(Prop):
             kind = 'str' if n % 2 == 0 else 'slice'
             for ek in ('rich', 'simple', 'cheap', 'empty'):
                 lines.append(case_line(f'k{n}{ek[0]}', g, inputs, kind=kind, ek=ek))
+        # the wrappers that shelter the pending error while their parser runs (labelled, map_err, memoized) put back what they
+        # took: with such a wrapper at any node the primary error stays where the furthest failure of the plain grammar is
+        # (pairs w<n>r = wrapped / w<n>p = plain, Rich; predicate on the implementation alone)
+        by = gen.enum_by_size(3, gen.C01_LEAVES, gen.C01_UNARIES, gen.C01_BINARIES, gen.C01_TERNARIES)
+        base = [g for s_ in (2, 3) for g in by[s_] if 'not' not in gen.ops_of(g)]
+        rng.shuffle(base)
+        inp = inputs_all(4, [gen.A, gen.B, gen.EA])
+        wraps = [lambda a: ('label', 3, False, a), lambda a: ('maperr', 4, a), lambda a: ('memo', 1, a), lambda a: ('label', 3, True, a)]
+        m = 0
+        for g in base[:250 if tier == 'quick' else 2500]:
+            for w in wraps:
+                for d in gen.insert_at_nodes(g, w)[:3]:
+                    # followed by a token so that a success of the wrapped part can still be overtaken by a later failure
+                    tail = ('just', [gen.B])
+                    kind = 'str' if m % 2 == 0 else 'slice'
+                    lines.append(case_line(f'w{m}r', ('then', d, tail), inp, kind=kind))
+                    lines.append(case_line(f'w{m}p', ('then', g, tail), inp, kind=kind))
+                    m += 1
         return lines
 
     def group_of(self, line):
         return line.split(' ', 1)[0][:-1]
 
-    def check_chunk(self, by_id, impl, model, stats, fails):
+    def check_wrapped(self, by_id, impl, model, stats, fails):
         for key, mo in model.items():
-            if key == '__bad__':
+            if key == '__bad__' or not key.startswith('w'):
+                continue
+            cid, _, k = key.rpartition('.')
+            if not cid.endswith('r'):
+                continue
+            k = int(k)
+            line = by_id.get(cid)
+            a = impl.get(key, {}).get('M')
+            b = impl.get(f'{cid[:-1]}p.{k}', {}).get('M')
+            stats['pairs'] += 2
+            if a is None or b is None:
+                fails.append(('missing', line, k, 'no implementation observation'))
+                continue
+            pa, pb = parse_M(a), parse_M(b)
+            oc = 'wrap:' + pa['kind'] + ('+' if pa.get('out') is not None else '-')
+            stats['outcomes'][oc] = stats['outcomes'].get(oc, 0) + 1
+            stats['nontrivial'] += 2
+            why = None
+            if (pa['kind'], pa.get('out') is not None) != (pb['kind'], pb.get('out') is not None):
+                why = 'acceptance changes when a sub-parser is wrapped in labelled / map_err / memoized'
+            elif pa['kind'] == 'R' and pa['out'] is None and pa['errs'] and pb['errs']:
+                ea, eb = parse_err(pa['errs'][-1]), parse_err(pb['errs'][-1])
+                if ea and eb and (ea['start'], ea['end']) != (eb['start'], eb['end']):
+                    why = (f'primary error at {ea["start"]}..{ea["end"]} with the wrapper, at {eb["start"]}..{eb["end"]} (the furthest failure) '
+                           'without it: the wrapper did not put the pending error back')
+            if why:
+                stats['pred_fail'] += 1
+                self.fail(stats, fails, 'pred', [(line, k), (by_id.get(cid[:-1] + 'p'), k)], k, f'{why} || wrapped: {a} || plain: {b}')
+            elif a != mo.get('M'):
+                stats['corr_disagree'] += 1
+                self.fail(stats, fails, 'corr', line, k, f'impl: {a} || model: {mo.get("M")}')
+
+    def check_chunk(self, by_id, impl, model, stats, fails):
+        self.check_wrapped(by_id, impl, model, stats, fails)
+        for key, mo in model.items():
+            if key == '__bad__' or key.startswith('w'):
                 continue
             cid, _, k = key.rpartition('.')
             if not cid.endswith('r'):
@@ -1434,7 +1578,7 @@ import os
 class C13(Prop):
     name = 'C13'; module = 'C13'; claimed = True
     title = 'parsers are pure values'
-    bins = ['h_hist']
+    bins = ['h_hist', 'h_str_rich', 'h_slice_rich']
     rule = ('grammars of the C01/C02/recovery/memoization/recursion streams, each with a pool of inputs (accepted and rejected ones); '
             'histories: every sequence of length <= 3 over the first three pool inputs plus seeded random histories of length 6, each '
             'history through one of nine wrappers over the SAME parser object (value, clone, &, Box, Rc, Arc, boxed().boxed(), Either '
@@ -1469,8 +1613,72 @@ class C13(Prop):
             n += 1
         return lines
 
+    def group_of(self, line):
+        return line.split(' ', 1)[0].replace('~c', '')
+
+    def check_chunk(self, by_id, impl, model, stats, fails):
+        """clone family: `<id>~c` is the same grammar with every combinator value cloned (its own Clone impl) and the
+        original dropped before use: the clone must behave as the original (implementation against itself) and as the model"""
+        for key, mo in model.items():
+            if key == '__bad__':
+                continue
+            cid, _, k = key.rpartition('.')
+            if '~c' not in cid:
+                continue
+            line = by_id.get(cid)
+            a = impl.get(key, {}).get('M')
+            b = impl.get(cid.replace('~c', '') + '.' + k, {}).get('M')
+            stats['pairs'] += 1
+            stats['nontrivial'] += 1
+            stats['outcomes']['clone'] = stats['outcomes'].get('clone', 0) + 1
+            if a is None or b is None:
+                fails.append(('missing', line, int(k), 'no implementation observation (crash / hang?)'))
+            elif a != b:
+                stats['pred_fail'] += 1
+                self.fail(stats, fails, 'pred', [(line, int(k)), (by_id.get(cid.replace('~c', '')), int(k))], int(k),
+                          f'CLONE: the cloned parser gives {a} || the original gives {b} || model: {mo.get("M")}')
+            elif a != mo.get('M'):
+                stats['corr_disagree'] += 1
+                self.fail(stats, fails, 'corr', line, int(k), f'impl: {a} || model: {mo.get("M")}')
+
+    def clone_lines(self, tier, seed):
+        rng = random.Random(seed + 7)
+        items = stream_items('quick', seed, ['c01', 'c02', 'rec', 'emit', 'deco', 'ctx', 'state'])
+        rng.shuffle(items)
+        keep = items[:600 if tier == 'quick' else 6000]
+        # every operator of the object language at least three times (each has its own Clone impl)
+        cnt = {}
+        for g, _, _ in keep:
+            for o in gen.ops_of(g):
+                cnt[o] = cnt.get(o, 0) + 1
+        for it in items[len(keep):]:
+            ops = gen.ops_of(it[0])
+            if any(cnt.get(o, 0) < 3 for o in ops):
+                keep.append(it)
+                for o in ops:
+                    cnt[o] = cnt.get(o, 0) + 1
+        # bounds and separator flags are plain fields of Repeated / SeparatedBy that a Clone impl has to carry over
+        a, comma = ('just', [gen.A]), ('just', [gen.COMMA])
+        for it in gen.c02_iterators([a], [comma], [(1, 2), (2, None), (0, 1)]):
+            keep.extend((c, None, {}) for c in gen.c02_consumers(it))
+        keep.extend((c, None, {}) for c in gen.c02_special())
+        items = keep
+        inp = inputs_all(4, [gen.A, gen.B, gen.COMMA]) + ' ' + inputs_lit([gen.EA, gen.A])
+        out = []
+        for n, (g, _, kw) in enumerate(items):
+            kw = dict(kw)
+            kind = kw.pop('kind', 'str' if n % 2 == 0 else 'slice')
+            if kind not in ('str', 'slice'):
+                kind = 'str'
+            mode = 'parse' if n % 3 else 'check'
+            kw = {k: v for k, v in kw.items() if k in ('defs', 'fuel')}
+            out.append(case_line(f'k{n}', g, inp, kind=kind, mode=mode, **kw))
+            out.append(case_line(f'k{n}~c', g, inp, kind=kind, mode=mode, **kw))
+        return out
+
     def custom_run(self, lines, tier, seed, jobs):
-        import multiprocessing
+        import multiprocessing, vcheck
+        ctot, cfails = vcheck.run_cases(self.name, self.clone_lines(tier, seed), jobs=jobs, timeout=900)
         n = max(1, min(jobs, len(lines)))
         chunks = [lines[i::n] for i in range(n)]
         thread_cmds = ['WRAPPERS'] + ['THREADS %d %d' % (t, 40 if tier == 'quick' else 400) for t in (2, 4, 8)]
@@ -1502,6 +1710,14 @@ class C13(Prop):
                     fails.append(('pred', by_id.get(cid), 0, f'{cid}: result differs from a fresh parser: {rest}'))
                 elif len(tot['samples']) < 3:
                     tot['samples'].append({'case': cid, 'grammar': grammar_of(by_id[cid]) if cid in by_id else 'static threaded parser', 'observation': rest.strip()})
+        for k in ('pairs', 'corr_disagree', 'pred_fail', 'nontrivial'):
+            tot[k] += ctot[k]
+        tot['impl_s'] += ctot['impl_s']; tot['model_s'] += ctot['model_s']
+        for k, v in ctot['outcomes'].items():
+            tot['outcomes'][k] = tot['outcomes'].get(k, 0) + v
+        if ctot.get('crash'):
+            tot['crash'] = ctot['crash']
+        fails.extend(cfails)
         return tot, fails
 
 
@@ -2328,7 +2544,7 @@ class C10(Prop):
             n += 1
         # (3) the Input trait driven directly
         small = inputs_all(3, [gen.A, gen.EA]) + ' ' + inputs_lit([gen.A, gen.B, gen.EA, gen.A, gen.B, gen.A])
-        for kd in ('slice', 'str', 'stream', 'bstream', 'io', 'iomap', 'mapped', 'iter'):
+        for kd in ('slice', 'str', 'stream', 'bstream', 'io', 'iomap', 'mapped', 'iter', 'iterspan'):
             for _ in range(12 if tier == 'quick' else 120):
                 ln = rng.randint(5, 40)
                 sched = [rng.randint(0, 50) if rng.random() < 0.5 else i for i in range(ln)]
@@ -2393,6 +2609,25 @@ class C10(Prop):
                 body, _, tail = a.partition(' ;')
                 for ent in body.split():
                     loc, _, t = ent.partition(':')
+                    if kind == 'iterspan':
+                        # IterInput::span (token i carries the span 3i+1..3i+3): the span of one pulled token is that token's,
+                        # an empty match gets an empty span, the span from the first cursor starts at the first token
+                        t, s1, s0, s2 = t.split('@')
+                        (a1, b1), (a0, b0), (a2, b2) = [tuple(int(x) for x in sp.split('-')) for sp in (s1, s0, s2)]
+                        e_idx = int(loc) + (1 if t != '-' else 0)
+                        # an empty match after e_idx tokens: an empty span just after the previous token (before the first one at 0)
+                        want2 = 3 * (e_idx - 1) + 3 if e_idx > 0 else (1 if toks else 1)
+                        if (a2, b2) != (want2, want2):
+                            why.append(f'span of an empty match after {e_idx} tokens is {a2}..{b2}, expected {want2}..{want2}')
+                        i = int(loc)
+                        if t != '-' and (a1, b1) != (3 * i + 1, 3 * i + 3):
+                            why.append(f'span of the single token pulled at location {loc} is {a1}..{b1}, the token carries {3 * i + 1}..{3 * i + 3}')
+                        if t == '-' and a1 != b1:
+                            why.append(f'span of an empty match at location {loc} is {a1}..{b1}')
+                        end_idx = i + (1 if t != '-' else 0)
+                        want0 = (1, 3 * (end_idx - 1) + 3) if end_idx > 0 else None
+                        if (want0 and (a0, b0) != want0) or (not want0 and a0 != b0):
+                            why.append(f'span from the first cursor to location {end_idx} is {a0}..{b0}')
                     want = toks[int(loc)] if int(loc) < len(toks) else None
                     if kind in ('io', 'iomap') and want is not None:
                         want &= 0xFF
